@@ -120,6 +120,9 @@ type Run struct {
 
 	BlockedSeen int
 	closed      bool
+
+	// OwnRange: the run wants to own the visiting order of UnsafeGoMap.Iterator's range (and a yield point per entry)
+	OwnRange bool
 }
 
 // CaseTrace makes NoteCase print; the supervisor sets VERIF_CASE_TRACE for the run that
@@ -142,6 +145,29 @@ func init() {
 	fp.VerifSetAtomicHook(hook)
 	lazy.VerifHook = hook
 	fp.VerifSetSpawnHook(spawnHook)
+	fp.VerifSetRangeHook(rangeHook)
+}
+
+// rangeHook owns the visiting order of UnsafeGoMap.Iterator's range while a task of an active run executes it: the
+// canonical (sorted) order rotated by a seeded amount - a Go range starts at a random position too. Outside a task the
+// map is ranged as usual (nil).
+func rangeHook(keys []any) []any {
+	r := active.Load()
+	if r == nil {
+		return nil
+	}
+	if !r.OwnRange {
+		return nil // only scenarios that ask for it (C19) pay a scheduling point per map entry
+	}
+	t := r.currentTask()
+	if t == nil {
+		return nil
+	}
+	if len(keys) < 2 || r.multi.Load() || t != r.cur {
+		return keys
+	}
+	k := r.Choose(len(keys), "rangeStart")
+	return append(append([]any{}, keys[k:]...), keys[:k]...)
 }
 
 func hook(op string) {
